@@ -20,7 +20,8 @@ CFG = {
                    "GeoProofs/Lemmas/RELMOrder4.lean", "GeoProofs/Lemmas/RELMOrder5.lean",
                    "GeoProofs/Lemmas/RELMDir.lean", "GeoProofs/Lemmas/RELMStar.lean", "GeoProofs/Lemmas/RELMSym1.lean",
                    "GeoProofs/Lemmas/RELMSym2.lean", "GeoProofs/Lemmas/RELMSym3.lean", "GeoProofs/Lemmas/RELMSym4.lean",
-                   "GeoProofs/Lemmas/RELMSym5.lean", "GeoProofs/Lemmas/RELMSym6.lean"],
+                   "GeoProofs/Lemmas/RELMSym5.lean", "GeoProofs/Lemmas/RELMSym6.lean",
+                   "GeoProofs/Lemmas/RELMEnds.lean", "GeoProofs/Lemmas/RELMEnds2.lean"],
     "rule": "ordered pairs (A, B) over all 10 geometry types (Geometry enum on both sides) drawn from one shared 3..6 grid: polyomino polygons with "
             "holes (incl. holes tangent to the shell), star polygons, rectangles with holes, corner-touching multipolygons, self-avoiding lattice "
             "paths, multi line strings sharing end points (mod-2 rule), half-grid points, same-dimension collections; each case also relates the "
@@ -122,8 +123,11 @@ MANIFEST = {
             "position the node map records for the point, which is B.coordinate_position(p) whenever p is not a node of B's graph, hence the rows of the "
             "specification wherever coordinate_position = locate (relateImpl_point_rows, _isolated, relateImpl_point_rows_eq_spec_partial; via the sorted node "
             "map, slot independence of the label operations and 'every component of B ends up Outside of a point'); the transpose law of the implementation: relateImpl b a = "
-            "(relateImpl a b)^T, panic for panic, in exact arithmetic, for ALL operands (valid or not) whose edge ends all have non-zero length "
-            "(relateImpl_transpose_partial; hypothesis EndsNonZero, decidable, false only with a Line of equal end points) — via: compare_direction is a strict "
+            "(relateImpl a b)^T, panic for panic, in exact arithmetic, for ALL operands, valid or not, without a zero-length Line (relateImpl_transpose, "
+            "relateImpl_transpose_total; from relateImpl_transpose_partial, whose hypothesis 'every edge end has non-zero length' is discharged by: edges built by "
+            "GeometryGraph::new have no two equal consecutive coordinates, self-noding and the mutual phase keep sorted lists of valid records on them, so "
+            "EdgeEndBuilder's stubs never have length zero) and, through it, the columns of relate(A, Point) from the rows of relate(Point, A) "
+            "(relateImpl_point_cols_partial) — via: compare_direction is a strict "
             "weak order on the edge ends of a node (quadrant, then sign of the cross product; transitivity inside a quadrant by the sine addition identity: "
             "impl_compareDirection_spec, impl_direction_order_transitive), hence the star of a node is independent of the insertion order of its edge ends up to "
             "the order inside a bundle (impl_star_order_independent), the label of a bundle is independent of the order of its edge ends and swapped by the label "
